@@ -36,7 +36,7 @@ type damageJ struct {
 
 // Replay is the "case" object of a replay file.
 type Replay struct {
-	Type      string      `json:"type"` // build | open | probe | offsets | walk | retain | block | damage
+	Type      string      `json:"type"` // build | order | open | probe | offsets | walk | retain | block | damage
 	Cfg       TableCfg    `json:"cfg"`
 	Shape     string      `json:"shape,omitempty"`
 	Strict    uint        `json:"strict"`
@@ -217,6 +217,16 @@ func runReplay(a vlib.Args, res *vlib.Result) {
 		}()
 		if rp.Type == "block" {
 			checkBlock(tc, rs, rp.InclLimit, ops, out)
+			return
+		}
+		if rp.Type == "golden" {
+			checkGolden(out)
+			return
+		}
+		if rp.Type == "order" {
+			if rp.Probe != nil {
+				checkOrder(tc, unhx(*rp.Probe), out)
+			}
 			return
 		}
 		cc := &curCheck{Typ: "build", TC: tc, Expected: "the writer accepts a strictly increasing sequence and reports consistent lengths"}
